@@ -7,6 +7,7 @@ from fgutils.utils import complete_aam, initialize_aam
 from fgutils.its import ITS
 
 ID = "C20"
+REPEAT_PROBE = True   # engine: repeat 1 call in 5 after editing its first result in place (purity / no shared state)
 PROPS = "Props/C20.v"
 MODEL_FILES = ["Model/Aam.v", "Spec/AamCheck.v"]
 IMPORTS = "From FGV Require Import Model.Aam Spec.AamCheck."
